@@ -25,6 +25,12 @@ Further dimensions of (a):
    iteration order, lengths, nested values -> one log record), takes the first owned graph in registry order as its focus
    (result line) and proposes one delta per owned graph in registry order.  The sequential loop
    reads the live state, the batch reads the snapshot view: both must observe the same thing.
+ * the POSITION of the selected agents in the task list: batches of 4..6 single-graph agents under every overlap pattern (every
+   partition of the agents into same-graph classes plus a "no graph" class, i.e. every assignment up to renaming of graphs) x
+   worker limits 2..6, so a selected agent can sit at any index - before, at or beyond the worker limit, after one or several
+   skipped agents.  On EVERY case of (a) the agents the driver really computes are compared with the independent statement of
+   the selection contract (greedy in task order, skip on overlap, stop at the limit): a selected agent that is not computed
+   (and so neither committed nor returned) is a violation even though the remaining turns match the sequential loop.
 """
 from __future__ import annotations
 
@@ -308,7 +314,8 @@ def drive(case, scratch, par_on, tasks=None, limit=None, measure=None):
 
 
 def ref_pick(agents, graphs, workers):
-    """Independent statement of the selection contract (used only to know which tasks the baseline runs)."""
+    """Independent statement of the selection contract: greedy in task order, skip on overlap with an agent admitted earlier,
+    stop once max(1, workers) agents are admitted."""
     picked, used = [], set()
     for a in agents:
         if len(picked) >= max(1, workers):
@@ -347,6 +354,16 @@ def check_case(case, scratch, limits=None):
         out.append(("select:order", "compute order %r is not task order [%s]" % (picked, tag)))
     if any(not dry for _, dry in base["computed"]):
         out.append(("standin:compute-not-dry", "compute phase ran a non-dry turn [%s]" % tag))
+    # --- the batch the driver works on is the SELECTED batch: every agent the selection contract admits (greedy in task order,
+    # disjoint from the agents admitted before it, room left under the limit) is computed, committed and returned.  (An agent
+    # computed beyond that set necessarily overlaps or exceeds the limit: reported above.)
+    expected = ref_pick(case["agents"], gs, case["workers"])
+    missing = [a for a in expected if a not in picked]
+    if missing:
+        pos = [case["agents"].index(a) for a in missing]
+        cls = "at-or-beyond-limit-index" if all(p >= max(1, case["workers"]) for p in pos) else "within-limit-index"
+        out.append(("batch:selected-not-computed:%s" % cls, "selected batch is %r but the driver computed only %r: agents %r (task index %r, "
+                    "max_workers=%d) were dropped without result, log lines or commit [%s]" % (expected, picked, missing, pos, case["workers"], tag)))
     # --- sequential baseline: the driver's own disabled path over the picked tasks
     seq = drive(case, scratch, par_on=False, tasks=[(a, "t-" + a) for a in picked])
     nruns += 1
@@ -508,6 +525,38 @@ def real_pipeline_case(scratch, world="W3"):
         ex.close()
 
 
+POS_ORDER = ["C", "A", "B", "F", "D", "E"]     # task order of the larger batches: not sorted by agent id
+
+
+def overlap_patterns(n):
+    """Every overlap pattern of n agents that own at most one graph each, up to renaming of graphs: position i carries None (no
+    graph) or a class label; labels appear in first-use order (restricted growth strings) -> Bell(n+1) patterns."""
+    def rec(i, used, cur):
+        if i == n:
+            yield list(cur)
+            return
+        for lab in [None] + list(range(used + 1)):
+            cur.append(lab)
+            yield from rec(i + 1, max(used, (lab + 1) if lab is not None else 0), cur)
+            cur.pop()
+    return rec(0, 0, [])
+
+
+def position_cases(thorough):
+    """larger batches: where the selected agents sit relative to the worker limit"""
+    out = []
+    for n in ((4, 5, 6) if thorough else (4, 5)):
+        agents = POS_ORDER[:n]
+        for pat in overlap_patterns(n):
+            graphs = {a: ([] if lab is None else ["G%d" % (lab + 1)]) for a, lab in zip(agents, pat)}
+            for workers in ((2, 3, 4, 5, 6) if thorough else (2, 3, 4)):
+                d = {"kind": "standin", "agents": agents, "graphs": graphs, "workers": workers, "shape": "std", "cadence": 1}
+                if not (thorough and n == 4):
+                    d["lim"] = "ends"
+                out.append(d)
+    return out
+
+
 def cases(thorough):
     out = []
     shapes = [s for s in SHAPES if s != "walk"] if thorough else ["std", "multi", "none", "big", "reuse"]   # "walk": see below
@@ -589,7 +638,7 @@ def cases(thorough):
                         if not thorough or n == 3:
                             d["lim"] = "ends"
                         extra.append(d)
-    return out + extra
+    return out + extra + position_cases(thorough)
 
 
 def run(run: Run) -> None:
@@ -607,10 +656,17 @@ def run(run: Run) -> None:
                 "the context it is handed and stamps the id into every record), and, for 1..%d agents, state container {dict, attribute "
                 "object} x graph naming x registry insertion order (%d of the 6 permutations of the graph ids; nested mappings, int "
                 "keys, falsy values) with a stand-in that records what it reads from the state (iteration order, lengths, values), "
-                "focuses on its first graph in registry order and proposes one delta per owned graph in that order%s; "
+                "focuses on its first graph in registry order and proposes one delta per owned graph in that order%s; plus batches of "
+                "4..%d single-graph agents under every overlap pattern (all partitions into same-graph classes + a no-graph class: "
+                "Bell(n+1) per n) x worker limits 2..%d, so selected agents sit at every index relative to the limit%s; in every case "
+                "of (a) the agents really computed must be exactly the batch the selection contract admits (greedy, task order, skip "
+                "on overlap, stop at the limit) - none dropped; "
                 "(b) real pipeline on W3; non-trivial = >=2 agents" % (
                     nsel, len(SHAPES), 3 if run.thorough else 2, 6 if run.thorough else 3,
-                    "" if run.thorough else " (context/container legs: staging limits 1, total-1, 32MiB only)"))
+                    "" if run.thorough else " (context/container legs: staging limits 1, total-1, 32MiB only)",
+                    6 if run.thorough else 5, 6 if run.thorough else 4,
+                    " (staging limits 1, total-1, 32MiB; all limit classes for 4 agents)" if run.thorough else " (staging limits 1, total-1, 32MiB only)"))
+    run.notes["position_cases"] = len(position_cases(run.thorough))
     run.pmap(_worker, cs, extra=(run.scratch,), chunks=128)
     for sig, what in real_pipeline_case(run.scratch):
         run.violation(sig, what, {"kind": "real"})
@@ -624,6 +680,9 @@ def run(run: Run) -> None:
                "snapshot view documents their conversion); the view may wrap containers, so only iteration order, length, "
                "lookup and scalar values are compared, not container types")
     run.assume("batches contain distinct agent ids")
+    run.assume("the batch of 4..6 agents has at most one graph per agent (multi-graph, partially overlapping sets are enumerated "
+               "for 1..3 agents); the selected batch is the greedy one the selection contract documents, and the caller resubmits "
+               "only the tasks outside it, so an admitted agent that is not computed is a lost turn")
 
 
 def replay(case):
